@@ -104,6 +104,7 @@ def check(tier, seed, runs, workers, secs):
         chunks.append((i, n))
         i += n
     deadline = t_start + cfg["secs"]
+    deep = ["--deep"] if tier == "thorough" else []
     results, crashes = [], []
     skipped = [0]
 
@@ -113,7 +114,7 @@ def check(tier, seed, runs, workers, secs):
             skipped[0] += 1
             return None
         out = os.path.join(work, "chunk-%d.json" % start)
-        rc, text = run_chunk(binary, ["run", "--seed", str(seed), "--start", str(start), "--count", str(n)] + V.hash_args(tier), out)
+        rc, text = run_chunk(binary, ["run", "--seed", str(seed), "--start", str(start), "--count", str(n)] + V.hash_args(tier) + deep, out)
         if rc != 0 or not os.path.exists(out):
             crashes.append(dict(start=start, count=n, rc=rc, output=text[-2000:]))
             return None
@@ -146,7 +147,7 @@ def check(tier, seed, runs, workers, secs):
             samples.extend(d["samples"][: 2 - len(samples)])
 
     # determinism self-check
-    det = V.recheck_determinism(binary, [], seed, hashes, tier, cfg, work, workers, with_inflight=False)
+    det = V.recheck_determinism(binary, deep, seed, hashes, tier, cfg, work, workers, with_inflight=False)
 
     mt.join()
 
